@@ -141,8 +141,8 @@ def validate(ctx, prop, events, label):
             pending = [x for x in pending if x is not r]
             total += 1
             rejected += 1
-            if rejected > 25:
-                raise Inconclusive("more than 25 rejected traces in one group; stopping")
+            if rejected > 8:
+                raise Inconclusive("more than 8 rejected traces in one group; stopping")
     return total
 
 
